@@ -10,7 +10,7 @@ import io
 from hypothesis import strategies as st
 
 from vlib import cmap_text
-from vlib.core import Sub, req, sut
+from vlib.core import fuzz_variant, Sub, req, sut
 
 PROPERTY = "C17"
 RULE = ("1-8 molecules with arbitrary distinct ids, 0-40 labels (0 => skipped), one-decimal coordinates incl. duplicates, end-marker "
@@ -91,5 +91,8 @@ def strategy(draw):
 
 def subchecks(tier):
     q = tier == "quick"
-    return [Sub("read-and-trim", "hyp", check, strategy=strategy, examples=5000 if q else 100000, shrink_budget=400,
+    subs = [Sub("read-and-trim", "hyp", check, strategy=strategy, examples=5000 if q else 100000, shrink_budget=400,
                 required_classes=("label-less", "ghost-id", "permuted-columns", "shuffled"))]
+    if not q:
+        subs.append(fuzz_variant(next(s for s in subs if s.name == "read-and-trim"), 15000))
+    return subs
